@@ -33,8 +33,13 @@ def _poly_trend(seg, order):
     return tr
 
 
+C_REC = 8.0     # recurrence + windowing: amplitude error <= C_REC * eps * max(L,8)^2 * sum|w||x - trend|
+C_TREND = 16.0   # trend fit / evaluation: amplitude error <= C_TREND * eps * max(L,8) * max|x_seg| * sum|w|
+
+
 def segment_dft(x, starts, L, w, omega, order):
-    """X_k(omega) = sum_n w[n] (x_k[n] - trend_k[n]) exp(-i omega n), longdouble.  Also returns S_k = sum |w|(|x|+|trend|)."""
+    """X_k(omega) = sum_n w[n] (x_k[n] - trend_k[n]) exp(-i omega n) in longdouble.
+    Also returns A_k, the amplitude rounding budget of segment k (see ref_stats)."""
     x = np.asarray(x, dtype=np.longdouble)
     w = np.asarray(w, dtype=np.longdouble)
     n = np.arange(L, dtype=np.longdouble)
@@ -44,32 +49,46 @@ def segment_dft(x, starts, L, w, omega, order):
     K = len(starts)
     Xr = np.zeros(K, dtype=np.longdouble)
     Xi = np.zeros(K, dtype=np.longdouble)
-    S = np.zeros(K, dtype=np.longdouble)
+    A = np.zeros(K, dtype=np.longdouble)
+    aw = np.abs(w)
+    Lb = max(L, 8)
     for k, st in enumerate(starts):
         st = int(st)
         seg = x[st:st + L]
         tr = _poly_trend(seg, order)
-        v = w * (seg - tr)
+        res = seg - tr
+        v = w * res
         Xr[k] = v @ c
         Xi[k] = -(v @ s)
-        # magnitude of everything that enters the arithmetic of this segment: the windowed samples, the
-        # subtracted trend, and - because the trend at every n is fitted from *all* samples of the segment -
-        # the largest sample of the segment (a window zero must not hide a large sample from the budget)
-        spread = np.max(np.abs(seg)) if (order >= 0 and L > 0) else np.longdouble(0.0)
-        S[k] = np.abs(w) @ (np.abs(seg) + np.abs(tr) + spread)
-    return Xr, Xi, S
+        # the recurrence works on the windowed *detrended* samples; the trend itself is fitted from all samples of
+        # the segment (a window zero must not hide a large sample), with an error proportional to the largest sample
+        A[k] = C_REC * EPS * Lb * Lb * (aw @ np.abs(res))
+        if order >= 0 and L > 0:
+            A[k] += C_TREND * EPS * Lb * np.max(np.abs(seg)) * aw.sum()
+        else:
+            A[k] += C_REC * EPS * Lb * Lb * 0.0
+    return Xr, Xi, A
 
 
 def ref_stats(x, y, starts, L, w, omega, order):
-    """Reference (MXX, MYY, mu_r, mu_i, M2) and the rounding budgets (tol2 for power-like, tol4 for M2)."""
-    Xr, Xi, Sx = segment_dft(x, starts, L, w, omega, order)
+    """Reference (MXX, MYY, mu_r, mu_i, M2) by direct evaluation of the definition, and the rounding budget of each.
+
+    Budget ("rounding budget of the recurrence"): every segment value X_k may be off by the amplitude A_k above; the
+    statistics inherit  |d|X|^2| <= 2|X|A + A^2,  |d(X conj Y)| <= |X|A_y + |Y|A_x + A_x A_y,  and for the scatter
+    about the mean  |dM2| <= 4 Z dz + 4 dz^2  with Z = max|z_k - mu|, dz = max per-segment cross-product budget.
+    Returns (ref5, tol2, tol4, S) for backward compatibility (tol2 = the largest power-like tolerance) and stores the
+    per-statistic tolerances in ref_stats.last_tols.
+    """
+    Xr, Xi, Ax = segment_dft(x, starts, L, w, omega, order)
     if y is None:
-        Yr, Yi, Sy = Xr, Xi, Sx
+        Yr, Yi, Ay = Xr, Xi, Ax
     else:
-        Yr, Yi, Sy = segment_dft(y, starts, L, w, omega, order)
+        Yr, Yi, Ay = segment_dft(y, starts, L, w, omega, order)
     K = len(starts)
-    pxx = Xr * Xr + Xi * Xi
-    pyy = Yr * Yr + Yi * Yi
+    aX = np.sqrt(Xr * Xr + Xi * Xi)
+    aY = np.sqrt(Yr * Yr + Yi * Yi)
+    pxx = aX * aX
+    pyy = aY * aY
     zr = Xr * Yr + Xi * Yi          # Re X conj(Y)
     zi = Xi * Yr - Xr * Yi          # Im X conj(Y)
     if y is None:
@@ -79,15 +98,32 @@ def ref_stats(x, y, starts, L, w, omega, order):
     MYY = pyy.mean()
     mur = zr.mean()
     mui = zi.mean()
+    dxx = 2 * aX * Ax + Ax * Ax
+    dyy = 2 * aY * Ay + Ay * Ay
+    dz = aX * Ay + aY * Ax + Ax * Ay
     if K >= 2:
         M2 = ((zr - mur) ** 2 + (zi - mui) ** 2).mean()
+        Z = np.sqrt(((zr - mur) ** 2 + (zi - mui) ** 2).max())
+        dzm = dz.max()
+        tM2 = 4 * Z * dzm + 4 * dzm * dzm
     else:
         M2 = np.longdouble(0.0)
-    S = float(max(Sx.max(), Sy.max())) if K else 0.0
-    budget = 8.0 * EPS * max(L, 8) ** 2
-    tol2 = budget * S * S + 1e-300
-    tol4 = budget * S ** 4 + 1e-300
-    return (float(MXX), float(MYY), float(mur), float(mui), float(M2)), tol2, tol4, S
+        tM2 = np.longdouble(0.0)
+    tiny = 1e-300
+    # the averaging over K segments itself: (naive) float64 summation, error <= ~eps*K relative to the summed magnitudes
+    red = 2.0 * EPS * max(K, 1)
+    tXX = float(dxx.mean() + red * MXX) + tiny
+    tYY = float(dyy.mean() + red * MYY) + tiny
+    tmu = float(dz.mean() + red * np.sqrt(zr * zr + zi * zi).mean()) + tiny
+    if K >= 2:
+        tM2 = float(tM2 + 4.0 * red * (M2 + Z * Z))
+    tM2 = float(tM2) + tiny
+    ref_stats.last_tols = (tXX, tYY, tmu, tmu, tM2)
+    S = float(max(Ax.max(), Ay.max())) if K else 0.0
+    return (float(MXX), float(MYY), float(mur), float(mui), float(M2)), max(tXX, tYY, tmu), tM2, S
+
+
+ref_stats.last_tols = None
 
 
 # ---------------------------------------------------------------------------
